@@ -480,6 +480,49 @@ def _range_incl_contains(ex, st, args, dest_ty, func, where):
     return VBool(simp(z3.And(r.f[0].t <= x.t, x.t <= r.f[1].t)))
 
 
+def _result_map_or_else(ex, st, args, dest_ty, func, where):
+    """Result::map_or_else(default: FnOnce(E) -> U, f: FnOnce(T) -> U): closures run from their own MIR under the matching guard"""
+    from .symexec import merge_states
+    r = args[0]
+    while isinstance(r, VRef):
+        r = ex.deref(st, r)
+    if not isinstance(r, VEnum):
+        raise Unsupported("map_or_else on %r" % (r,))
+    g0 = st.guard
+    is_ok = simp(r.discr == 0)
+    outs, sts = [], []
+    if not z3.is_false(is_ok) and 0 in r.pay:
+        s1 = st.fork(simp(z3.And(g0, is_ok)))
+        outs.append((is_ok, call_closure(ex, s1, args[2], [r.pay[0][0]], where)))
+        sts.append(s1)
+    if not z3.is_true(is_ok) and 1 in r.pay:
+        s2 = st.fork(simp(z3.And(g0, z3.Not(is_ok))))
+        outs.append((simp(z3.Not(is_ok)), call_closure(ex, s2, args[1], [r.pay[1][0]], where)))
+        sts.append(s2)
+    ms = merge_states(sts)
+    if ms is None:
+        st.guard = z3.BoolVal(False)
+        return None
+    st.guard, st.frames = ms.guard, ms.frames
+    if len(outs) == 1:
+        return outs[0][1]
+    return merge(outs[0][0], outs[0][1], outs[1][1])
+
+
+def _result_is_ok_and(ex, st, args, dest_ty, func, where):
+    """Result::is_ok_and(f): Ok(v) -> f(v), Err -> false (closure from its own MIR)"""
+    r = args[0]
+    while isinstance(r, VRef):
+        r = ex.deref(st, r)
+    if not isinstance(r, VEnum):
+        raise Unsupported("is_ok_and on %r" % (r,))
+    is_ok = simp(r.discr == 0)
+    if z3.is_false(is_ok) or 0 not in r.pay:
+        return VBool(z3.BoolVal(False))
+    v = call_closure(ex, st, args[1], [r.pay[0][0]], where)      # a pure predicate: evaluated unconditionally, used under the guard
+    return VBool(simp(z3.And(is_ok, v.t)))
+
+
 def _result_is(ex, st, args, dest_ty, func, where):
     r = args[0]
     while isinstance(r, VRef):
@@ -502,6 +545,8 @@ def install_core(ex):
     A = ex.add_model
     A(r"^(std::option::)?Option::<(u8|u16|u32|u64|usize|i8|i16|i32|i64|isize)>::unwrap_or_default$", _opt_int_unwrap_or_default, "Option<int>::unwrap_or_default")
     A(r"^(std::result::)?Result::<.*>::is_(ok|err)$", _result_is, "Result::is_ok / is_err")
+    A(r"^(std::result::)?Result::<.*>::is_ok_and::<", _result_is_ok_and, "Result::is_ok_and (closure from MIR)")
+    A(r"^(std::result::)?Result::<.*>::map_or_else::<", _result_map_or_else, "Result::map_or_else (closures from MIR)")
     A(r"^(std::ops::)?RangeInclusive::<\w+>::new$", _range_incl_new, "RangeInclusive::new")
     A(r"^(std::ops::)?RangeInclusive::<\w+>::contains::<\w+>$", _range_incl_contains, "RangeInclusive::contains")
     A(r"^<(std::option::)?Option<(u8|u16|u32|u64|usize|i8|i16|i32|i64|isize|bool|char)> as PartialEq>::(eq|ne)$", _opt_scalar_eq, "<Option<scalar> as PartialEq>::eq")
